@@ -136,7 +136,50 @@ def shared_leaf():
         return "gradient w.r.t. a leaf shared by two operands differs from the reference by %.3e" % float((g - gr).abs().max())
 
 
-TABLE = {"m_without_e": m_without_e, "shared_leaf": shared_leaf}
+def complex_shift_with_hermitian_operator():
+    """complex128: Hermitian A (and M) with a complex shift E - the shifted operator is not self-adjoint; first-order
+    gradients against a dense torch.linalg.solve built from the same leaves"""
+    import xitorch
+    from xitorch.linalg import solve
+    torch.manual_seed(7)
+    cdt = torch.complex128
+    n, nc = 4, 2
+
+    def herm(w):
+        return (w + w.transpose(-2, -1).conj()) * 0.5
+    bad = []
+    for withM in (False, True):
+        w = torch.randn(n, n, dtype=cdt).requires_grad_()
+        wm = torch.randn(n, n, dtype=cdt).requires_grad_()
+        B = torch.randn(n, nc, dtype=cdt).requires_grad_()
+        E = torch.randn(nc, dtype=cdt).requires_grad_()
+
+        def mats():
+            A = herm(w) + 3 * torch.eye(n, dtype=cdt)
+            M = herm(wm) @ herm(wm).conj().transpose(-2, -1) + n * torch.eye(n, dtype=cdt) if withM else None
+            return A, M
+        A, M = mats()
+        X = solve(xitorch.LinearOperator.m(A, is_hermitian=True), B, E,
+                  xitorch.LinearOperator.m(herm(M), is_hermitian=True) if withM else None, method="custom_exactsolve")
+        A2, M2 = mats()
+        cols = []
+        for c_ in range(nc):
+            S = A2 - E[c_] * (herm(M2) if withM else torch.eye(n, dtype=cdt))
+            cols.append(torch.linalg.solve(S, B[:, c_:c_ + 1]))
+        Xr = torch.cat(cols, dim=-1)
+        wgt = torch.randn(n, nc, dtype=cdt)
+        leaves = (w, B, E) + ((wm,) if withM else ())
+        g = torch.autograd.grad((X * wgt).sum().real, leaves, allow_unused=True)
+        gr = torch.autograd.grad((Xr * wgt).sum().real, leaves, allow_unused=True)
+        for nm, a_, b_ in zip(("A-parameter", "B", "E", "M-parameter"), g, gr):
+            a_ = torch.zeros_like(b_) if a_ is None else a_
+            err = (a_ - b_).abs().max().item()
+            if not err <= 1e-8 * max(1.0, b_.abs().max().item()):
+                bad.append("M=%s: gradient w.r.t. %s differs from the dense reference by %.2e" % (withM, nm, err))
+    return "; ".join(bad[:3]) if bad else None
+
+
+TABLE = {"complex_shift_with_hermitian_operator": complex_shift_with_hermitian_operator, "m_without_e": m_without_e, "shared_leaf": shared_leaf}
 for mode in ("noE", "E", "EM"):
     TABLE["grads:%s:exact:1" % mode] = grads(mode, "exactsolve", "exactsolve", 1)
     TABLE["grads:%s:cg:1" % mode] = grads(mode, "cg", "cg", 1)
